@@ -6,7 +6,7 @@
    double), including q / -q pairs and elements with w < 0 and a tiny vector part (the defect repaired by
    fix edde36d); not proved. *)
 From Coq Require Import Reals List Lra Lia.
-From Manif Require Import Scalar Mat Group RInst Generic LieSpec SO2 SE2 SO3 Rn SE2Proofs SO3Proofs RnProofs Log_SE2 Approx_Inst SE3 Log_SO3 Log_SE3 LogExp_SO3 LogExp_SE3 SE23 LogExp_SE23
+From Manif Require Import Scalar Mat Group RInst Generic LieSpec SO2 SE2 SO3 Rn SE2Proofs SO3Proofs RnProofs Log_SE2 Approx_Inst SE3 Log_SO3 Log_SE3 LogExp_SO3 LogExp_SE3 SE23 LogExp_SE23 Log_SE23
   Bundle BundleLaws BundleInst InterpProofs InterpInst BundleExpLog.
 Import ListNotations.
 Local Open Scope R_scope.
@@ -58,6 +58,13 @@ Print Assumptions C03_SE3_exp_log_generic.
 
 Example C03_nonvacuous : se2_valid [1000000; -3; -3/5; 4/5] /\ - PI < 1 <= PI.
 Proof. split; [exists 1000000, (-3), (-3/5), (4/5); split; [reflexivity|lra] | pose proof PI2_1; pose proof PI_RGT_0; lra]. Qed.
+
+(* SE_2(3), generic branch, off the half turn: translation and velocity recovered exactly, quaternion up to sign *)
+Theorem C03_SE23_exp_log_generic eps tx ty tz x y z w vx vy vz : 0 < eps -> n4 x y z w = 1 -> eps < x * x + y * y + z * z -> w <> 0 ->
+  se23_exp RS eps (se23_log RS eps [tx; ty; tz; x; y; z; w; vx; vy; vz]) =
+  [tx; ty; tz] ++ (if Rlt_dec w 0 then [- x; - y; - z; - w] else [x; y; z; w]) ++ [vx; vy; vz].
+Proof. intros H. exact (se23_exp_log_generic eps H tx ty tz x y z w vx vy vz). Qed.
+Print Assumptions C03_SE23_exp_log_generic.
 
 (* log(exp t) = t for every tangent with rotation angle below pi: SO3 and SE3, generic branches of exp and log *)
 Theorem C03_SO3_log_exp eps x y z : 0 < eps -> eps < x * x + y * y + z * z -> sqrt (x * x + y * y + z * z) < PI ->
